@@ -91,6 +91,205 @@ fn run_case(ctx: &Ctx, tag: &str, nhandles: usize, same_page: bool, plan: &[(usi
     Ok(CaseResult { recovered, live, note })
 }
 
+// ---------------------------------------------------------------------------------------------
+// second clause of C38: every page a committed unit modified is covered by the log when the
+// COMMIT (or autocommit statement) returns.  The I/O trace of the real engine (page_mut hand-outs,
+// `wal_mark_dirty` of the WAL-wrapped storages, `wal_frame` writes) is replayed through the Lean
+// M-code model `TurVerif.CommitCover` (correspondence: the pages each commit logs), and the
+// oracle compares file contents with the frames in the WAL (content level, independent of the model).
+
+use std::collections::{BTreeMap, BTreeSet, HashMap, HashSet};
+use std::sync::Mutex;
+
+static TRACE: Mutex<Option<Vec<(String, String, u64, u64)>>> = Mutex::new(None);
+
+fn trace_hook(kind: &'static str, name: &str, a: u64, b: u64) {
+    if let Ok(mut g) = TRACE.lock() {
+        if let Some(v) = g.as_mut() { v.push((kind.to_string(), name.to_string(), a, b)); }
+    }
+}
+
+const PAGE: usize = crate::engines::crash::PAGE;
+const FRAME: usize = 32 + PAGE;
+
+fn data_files(dir: &std::path::Path, rel: &str, out: &mut Vec<(String, std::path::PathBuf)>) {
+    let mut ents: Vec<_> = match std::fs::read_dir(dir) { Ok(r) => r.filter_map(|e| e.ok()).collect(), Err(_) => return };
+    ents.sort_by_key(|e| e.file_name());
+    for e in ents {
+        let name = e.file_name().to_string_lossy().to_string();
+        let r = if rel.is_empty() { name.clone() } else { format!("{rel}/{name}") };
+        let p = e.path();
+        if p.is_dir() { if name != "wal" { data_files(&p, &r, out); } }
+        else if name.ends_with(".tbd") || name.ends_with(".idx") { out.push((r, p)); }
+    }
+}
+
+fn page_hashes(dir: &str) -> BTreeMap<(String, u64), u64> {
+    let mut files = vec![];
+    data_files(std::path::Path::new(dir), "", &mut files);
+    let mut m = BTreeMap::new();
+    for (rel, p) in files {
+        if let Ok(b) = std::fs::read(&p) {
+            for (i, c) in b.chunks(PAGE).enumerate() { if c.len() == PAGE { m.insert((rel.clone(), i as u64), crate::engines::crash::hash_bytes(c)); } }
+        }
+    }
+    m
+}
+
+/// (number of frame slots, hashes of the page data of every frame slot) over all WAL segments
+fn wal_images(dir: &str) -> (usize, HashSet<u64>) {
+    let mut n = 0;
+    let mut set = HashSet::new();
+    let wal = std::path::Path::new(dir).join("wal");
+    let mut segs: Vec<_> = std::fs::read_dir(&wal).map(|r| r.filter_map(|e| e.ok()).map(|e| e.path()).collect()).unwrap_or_default();
+    segs.sort();
+    for p in segs {
+        if let Ok(b) = std::fs::read(&p) {
+            let mut o = 0;
+            while o + FRAME <= b.len() {
+                let fid = u64::from_le_bytes(b[o..o + 8].try_into().unwrap());
+                if fid >> 56 == 0 { set.insert(crate::engines::crash::hash_bytes(&b[o + 32..o + FRAME])); }
+                n += 1;
+                o += FRAME;
+            }
+        }
+    }
+    (n, set)
+}
+
+fn rel_of(dir: &str, path: &str) -> String {
+    path.strip_prefix(dir).map(|r| r.trim_start_matches('/').to_string()).unwrap_or_else(|| path.to_string())
+}
+
+fn file_class(rel: &str) -> &'static str {
+    let toast = rel.contains("toast");
+    if rel.ends_with(".idx") { "idx" } else if toast { "toast-tbd" } else { "tbd" }
+}
+
+struct Unit { name: &'static str, stmts: Vec<String> }
+
+fn cover_units(rng: &mut Rng, thorough: bool) -> Vec<Unit> {
+    let txt = |n: usize, seed: u8| -> String { (0..n).map(|i| (b'a' + ((i as u8).wrapping_add(seed)) % 26) as char).collect() };
+    let mut v = vec![
+        Unit { name: "insert", stmts: vec!["INSERT INTO t VALUES (10, 1, 'x')".into()] },
+        Unit { name: "update-plain-by-pk", stmts: vec!["UPDATE t SET b = 'yy' WHERE id = 2".into()] },
+        Unit { name: "update-indexed-by-scan", stmts: vec!["UPDATE t SET a = 7 WHERE b = 'r3'".into()] },
+        Unit { name: "delete-by-pk", stmts: vec!["DELETE FROM t WHERE id = 4".into()] },
+        Unit { name: "insert-toast", stmts: vec![format!("INSERT INTO t VALUES (11, 2, '{}')", txt(3000, 1))] },
+        Unit { name: "update-toast", stmts: vec![format!("UPDATE t SET b = '{}' WHERE id = 11", txt(6000, 2))] },
+        Unit { name: "txn-small", stmts: vec!["BEGIN".into(), "INSERT INTO t VALUES (12, 3, 'p')".into(), "INSERT INTO t VALUES (13, 3, 'q')".into(), "UPDATE t SET a = 9 WHERE id = 12".into(), "DELETE FROM t WHERE id = 1".into(), "COMMIT".into()] },
+        Unit { name: "txn-split", stmts: { let mut s = vec!["BEGIN".to_string()]; for k in 0..40 { s.push(format!("INSERT INTO t VALUES ({}, {}, '{}')", 100 + k, k % 5, txt(900, k as u8))); } s.push("COMMIT".into()); s } },
+        Unit { name: "txn-chunked", stmts: { let mut s = vec!["BEGIN".to_string()]; for k in 0..12 { let rows: Vec<String> = (0..32).map(|j| format!("({}, {}, '{}')", 1000 + k * 32 + j, j % 7, txt(900, (k * 32 + j) as u8))).collect(); s.push(format!("INSERT INTO t VALUES {}", rows.join(", "))); } s.push("COMMIT".into()); s } },
+        Unit { name: "update-many", stmts: vec!["UPDATE t SET a = a + 1 WHERE id >= 100".into()] },
+        Unit { name: "delete-many", stmts: vec!["DELETE FROM t WHERE id >= 1100".into()] },
+    ];
+    let nrand = if thorough { 60 } else { 6 };
+    for k in 0..nrand {
+        let mut s = vec![];
+        let txn = rng.chance(1, 2);
+        if txn { s.push("BEGIN".to_string()); }
+        for j in 0..(1 + rng.below(4)) {
+            let id = 2000 + k * 10 + j;
+            s.push(match rng.below(4) {
+                0 => format!("INSERT INTO t VALUES ({id}, {}, '{}')", rng.below(9), txt(1 + rng.below(1500) as usize, id as u8)),
+                1 => format!("UPDATE t SET a = {} WHERE id = {}", rng.below(9), 100 + rng.below(40)),
+                2 => format!("UPDATE t SET b = '{}' WHERE id = {}", txt(1 + rng.below(2500) as usize, j as u8), 100 + rng.below(40)),
+                _ => format!("DELETE FROM t WHERE id = {}", 100 + rng.below(40)),
+            });
+        }
+        if txn { s.push("COMMIT".to_string()); }
+        v.push(Unit { name: "random", stmts: s });
+    }
+    v
+}
+
+fn run_cover(ctx: &Ctx, rep: &mut Report, indexed: bool, rng: &mut Rng) {
+    let dbh = Dbh::create(ctx, if indexed { "c38cov-ix" } else { "c38cov" });
+    let mut setup = vec!["PRAGMA wal=ON".to_string(), "PRAGMA synchronous=FULL".into()];
+    setup.push(if indexed { "CREATE TABLE t (id INT PRIMARY KEY, a INT, b TEXT)".into() } else { "CREATE TABLE t (id INT, a INT, b TEXT)".into() });
+    if indexed { setup.push("CREATE INDEX t_a ON t (a)".into()); }
+    for k in 1..=5 { setup.push(format!("INSERT INTO t VALUES ({k}, {}, 'r{k}')", k % 3)); }
+    for s in &setup { if let Out::Err(e) = dbh.exec(s) { rep.notes.push(format!("cover setup failed: {s}: {e}")); return; } }
+    let mut model = Model::spawn(&ctx.model_bin, "commitcover");
+    turdb::verif_hooks::set_io_hook(Some(trace_hook));
+    let mut fidx: HashMap<String, usize> = HashMap::new();
+    let mut tid_to_file: HashMap<u64, usize> = HashMap::new();
+    // the setup ran without the trace: start the model from a drained tracker
+    for u in cover_units(rng, ctx.thorough) {
+        let case = format!("cover {} {}: {}", if indexed { "pk+index" } else { "noindex" }, u.name, u.stmts.iter().map(|s| s.chars().take(60).collect::<String>()).collect::<Vec<_>>().join(" ; ").chars().take(400).collect::<String>());
+        let pre = page_hashes(&dbh.dir);
+        let (n0, _) = wal_images(&dbh.dir);
+        *TRACE.lock().unwrap() = Some(vec![]);
+        let mut failed = None;
+        for s in &u.stmts { match dbh.exec(s) { Out::Err(e) => { failed = Some(format!("{s}: {e}")); break; } Out::Panic(p) => { failed = Some(format!("{s}: panic {p}")); break; } _ => {} } }
+        let evs = TRACE.lock().unwrap().take().unwrap_or_default();
+        if let Some(f) = failed {
+            rep.count("cover:unit-statement-failed");
+            let _ = dbh.exec("ROLLBACK");
+            let _ = f;
+            continue;
+        }
+        rep.case(Some(&case));
+        rep.count(&format!("cover:unit:{}", u.name));
+        let post = page_hashes(&dbh.dir);
+        let (n1, imgs) = wal_images(&dbh.dir);
+        if n1 < n0 { rep.count("cover:wal-shrank(skipped)"); continue; }
+        // ---- trace -> model ops (writes, drains, clears) + the frames the unit logged
+        let mut ops: Vec<String> = vec![];
+        let mut written: BTreeMap<(String, u64), bool> = BTreeMap::new(); // page -> some write was wrapped
+        let mut frames: Vec<(u64, u64)> = vec![];
+        let mut pending: Option<(u64, u64)> = None;
+        for (kind, name, a, b) in &evs {
+            match kind.as_str() {
+                "wal_mark_dirty" => { pending = Some((*a, *b)); }
+                "page_mut" => {
+                    let rel = rel_of(&dbh.dir, name);
+                    let n = fidx.len();
+                    let fi = *fidx.entry(rel.clone()).or_insert(n);
+                    let wrapped = matches!(pending, Some((_, p)) if p == *a);
+                    if let (true, Some((tid, _))) = (wrapped, pending) { tid_to_file.insert(tid, fi); }
+                    pending = None;
+                    ops.push(format!("w:{fi}:{a}:{}", wrapped as u8));
+                    let e = written.entry((rel, *a)).or_insert(false);
+                    *e = *e || wrapped;
+                }
+                "dirty_drain" => { if let Some(fi) = tid_to_file.get(a) { ops.push(format!("d:{fi}")); } }
+                "dirty_clear" => { if let Some(fi) = tid_to_file.get(a) { ops.push(format!("x:{fi}")); } }
+                "wal_frame" => { if *a >> 56 == 0 { frames.push((*a, *b)); } }
+                _ => {}
+            }
+        }
+        rep.count_n("cover:page_mut-events", ops.iter().filter(|o| o.starts_with('w')).count() as u64);
+        rep.count_n("cover:drain-events", ops.iter().filter(|o| o.starts_with('d')).count() as u64);
+        rep.count_n("cover:wal-frames", frames.len() as u64);
+        let m = model.ask(&format!("ops {}", ops.join(" ")));
+        // ---- correspondence: the pages the unit logs (each drain logs its table's dirty pages)
+        let mut real: Vec<String> = frames.iter().map(|(tid, p)| match tid_to_file.get(tid) { Some(fi) => format!("{fi}.{p}"), None => format!("?{tid}.{p}") }).collect();
+        real.sort();
+        let mut modelled: Vec<String> = m.strip_prefix("drains ").and_then(|r| r.split(" pending ").next()).map(|g| g.split(|c| c == '|' || c == ',').filter(|x| *x != "-" && !x.is_empty()).map(|x| x.to_string()).collect()).unwrap_or_default();
+        modelled.sort();
+        if real != modelled {
+            rep.disagree(case.clone(), format!("pages logged by the unit: engine {:?}, M-code model {:?} (files {:?}; model answer {m})", real, modelled, fidx), "commit-cover".into());
+        } else { rep.count("cover:logged-sets-agree"); }
+        // ---- oracle: every page whose content changed must have its current image in the WAL
+        let mut uncovered_real: BTreeSet<(String, u64)> = BTreeSet::new();
+        let mut keys: BTreeSet<(String, u64)> = pre.keys().cloned().collect();
+        keys.extend(post.keys().cloned());
+        for k in keys {
+            let (a, b) = (pre.get(&k), post.get(&k));
+            if a == b { continue; }
+            let Some(h) = b else { continue };
+            rep.count(&format!("cover:changed-page:{}", file_class(&k.0)));
+            if imgs.contains(h) { continue; }
+            uncovered_real.insert(k.clone());
+            let via = match written.get(&k) { Some(true) => "wrapped", Some(false) => "unwrapped", None => "no-page_mut-seen" };
+            rep.oracle_fail(case.clone(), format!("after the unit returned, page {} of {} differs from its content before the unit and no WAL frame holds its current image (written through: {via})", k.1, k.0),
+                format!("commit:uncovered:{}:{}:{via}", file_class(&k.0), if k.1 == 0 { "page0" } else { "other" }));
+        }
+    }
+    turdb::verif_hooks::set_io_hook(None);
+}
+
 pub fn run(ctx: &Ctx) -> Report {
     let mut rep = Report::new(
         "commitorder",
@@ -98,7 +297,7 @@ pub fn run(ctx: &Ctx) -> Report {
          leaf page or on different pages; the interleaving is forced at the yield point between page-image capture and group-commit \
          submit (every subset/order of 'pause at captured' then 'run to the end'); after all COMMITs returned Ok the directory is copied \
          (kill model) and reopened; every committed update must be visible after WAL recovery. The Lean model's WAL order for the same \
-         plan predicts which version the replay ends with. non-trivial = plan in which some committer is overtaken between capture and submit",
+         plan predicts which version the replay ends with. non-trivial = plan in which some committer is overtaken between capture and submit. Coverage clause: single-handle units (autocommit INSERT/UPDATE/DELETE, TOAST-sized values, small / page-splitting / chunked transactions, random units) on a table with and without PRIMARY KEY + secondary index; the I/O trace (page_mut hand-outs, wal_mark_dirty, wal_frame) is replayed through the Lean commitcover model (pages logged per commit must agree) and every page whose content changed must have its current image in some WAL frame when the unit returns",
     );
     let mut model = Model::spawn(&ctx.model_bin, "commitorder");
     let mut plans: Vec<(usize, bool, Vec<(usize, bool)>)> = vec![];
@@ -127,6 +326,10 @@ pub fn run(ctx: &Ctx) -> Report {
             for t in &order { plan.push((*t, false)); }
             plans.push((n, rng.chance(2, 3), plan));
         }
+    }
+    {
+        let mut rng = Rng::new(ctx.seed ^ 0xC38);
+        for indexed in [false, true] { run_cover(ctx, &mut rep, indexed, &mut rng); }
     }
     for (k, (n, same_page, plan)) in plans.iter().enumerate() {
         let case = format!("handles={n} same_page={same_page} plan={plan:?}");
